@@ -753,6 +753,39 @@ def oracle_c11(ctx: Ctx):
                 ctx.finding(f"{cls}{env_class([str(m)], env)}view|{name}|{op}|{lit}|{'rev' if rev else ''}", "the specifier view admits a different set than the atom evaluates true on",
                             {"atom": str(m), "value": val}, a, {"specifier": str(spec), "admits": b})
                 break
+    # the views at work: a python_version atom (in / not in lists included) merged with a python_full_version atom must evaluate as
+    # the conjunction / disjunction of the two atoms on every consistent final interpreter (python_version = X.Y of python_full_version
+    # = X.Y.Z) -- the list view of python_version is only exercised here, through _merge_python_version_single_markers
+    pv_atoms = [a for a in atoms if a[0] == "python_version"]
+    pfv_atoms = [a for a in atoms if a[0] == "python_full_version"]
+    mrng = random.Random(ctx.seed + 1711)
+    pairs = [(a, b) for a in pv_atoms for b in pfv_atoms]
+    if ctx.tier == "quick":
+        listed = [(a, b) for (a, b) in pairs if "in" in a[1]]
+        rest = [(a, b) for (a, b) in pairs if "in" not in a[1]]
+        pairs = listed + mrng.sample(rest, min(len(rest), 250))
+    m_interps = [i for i in interps if i[0] == 3 and i[1] >= 5] + [(2, 7, 0), (2, 7, 9), (4, 0, 0), (3, 0, 1)]
+    for (n1, o1, l1), (n2, o2, l2) in pairs:
+        ta, tb = f'{n1} {o1} "{l1}"', f'{n2} {o2} "{l2}"'
+        for order in (0, 1):
+            x, y = (ta, tb) if order == 0 else (tb, ta)
+            for opname, comb in (("and", lambda p, q: p and q), ("or", lambda p, q: p or q)):
+                ok, res = safe(ctx, "oracle-C11", lambda: (parse(x), parse(y), (parse(x) & parse(y)) if opname == "and" else (parse(x) | parse(y))))
+                if not ok:
+                    continue
+                a, b, r = res
+                ctx.count("oracle-C11", 1, nontrivial_key=("merge", o1, l1.count("."), o2, l2.count("."), opname, order))
+                for i in m_interps:
+                    env = env_of(i)
+                    try:
+                        exp, got = comb(ev(a, env), ev(b, env)), ev(r, env)
+                    except Exception as e:  # noqa: BLE001
+                        ctx.finding(f"merge-eval-raise|{x}|{y}", f"evaluate raised {type(e).__name__}", {"a": x, "b": y, "env": _envs(env)}, None, repr(e))
+                        break
+                    if exp != got:
+                        ctx.finding(f"{env_class([x, y], env)}merge|{opname}|{x}|{y}", "a python_version atom merged with a python_full_version atom does not evaluate as the combination of the two atoms",
+                                    {"a": x, "b": y, "env": _envs(env)}, exp, {"result": str(r), "value": got})
+                        break
     simple = []
     for op in ["==", "!=", "<", "<=", ">", ">=", "~="]:
         for lit in ["3", "3.6", "3.7.1", "3.10", "3.9a1", "3.7.0rc1", "3.8.post1", "3.9.dev0", "3b2"]:
